@@ -104,23 +104,35 @@ func checkRing(p [2]int64, ring [][2]int64, l geom.Layout, what string) error {
 	return nil
 }
 
-func variants(ring [][2]int64) map[string][][2]int64 {
-	out := map[string][][2]int64{}
+type variant struct {
+	name string
+	ring [][2]int64
+}
+
+// variants lists the metamorphic images of a ring in a fixed order: reversed,
+// every rotation and every single duplicated vertex (for rings of more than 24
+// vertices: 8 rotations and 8 duplications spread over the ring).
+func variants(ring [][2]int64) []variant {
+	var out []variant
 	n := len(ring) - 1
 	rev := make([][2]int64, len(ring))
 	for i := range ring {
 		rev[i] = ring[len(ring)-1-i]
 	}
-	out["reversed"] = rev
-	for r := 1; r < n; r++ {
+	out = append(out, variant{"reversed", rev})
+	step := 1
+	if n > 24 {
+		step = n / 8
+	}
+	for r := 1; r < n; r += step {
 		rot := make([][2]int64, 0, len(ring))
 		for i := 0; i < n; i++ {
 			rot = append(rot, ring[(i+r)%n])
 		}
 		rot = append(rot, rot[0])
-		out[fmt.Sprintf("rotated by %d", r)] = rot
+		out = append(out, variant{fmt.Sprintf("rotated by %d", r), rot})
 	}
-	for d := 0; d < n; d++ {
+	for d := 0; d < n; d += step {
 		dup := make([][2]int64, 0, len(ring)+1)
 		for i, p := range ring {
 			dup = append(dup, p)
@@ -128,7 +140,7 @@ func variants(ring [][2]int64) map[string][][2]int64 {
 				dup = append(dup, p)
 			}
 		}
-		out[fmt.Sprintf("vertex %d duplicated", d)] = dup
+		out = append(out, variant{fmt.Sprintf("vertex %d duplicated", d), dup})
 	}
 	return out
 }
@@ -144,6 +156,9 @@ func genRingCase(t *rapid.T) Case {
 		off = [2]int64{}
 	}
 	n := rapid.IntRange(3, 12).Draw(t, "n")
+	if rapid.IntRange(0, 49).Draw(t, "long") == 0 {
+		n = rapid.IntRange(60, 300).Draw(t, "nlong") // sizes across any chunking or stack constant
+	}
 	ring := make([][2]int64, 0, n+1)
 	for i := 0; i < n; i++ {
 		p := [2]int64{off[0] + rapid.Int64Range(0, lim).Draw(t, "x"), off[1] + rapid.Int64Range(0, lim).Draw(t, "y")}
@@ -187,6 +202,9 @@ func genLineCase(t *rapid.T) Case {
 	k := uint(rapid.IntRange(1, 26).Draw(t, "k"))
 	lim := int64(1) << k
 	n := rapid.IntRange(2, 8).Draw(t, "n")
+	if rapid.IntRange(0, 49).Draw(t, "long") == 0 {
+		n = rapid.IntRange(60, 300).Draw(t, "nlong")
+	}
 	line := make([][2]int64, n)
 	for i := range line {
 		line[i] = [2]int64{rapid.Int64Range(-lim, lim).Draw(t, "x"), rapid.Int64Range(-lim, lim).Draw(t, "y")}
@@ -273,7 +291,8 @@ func prop(c Case) error {
 		}
 		want := locate(c.P, c.Ring)
 		li := 0
-		for name, v := range variants(c.Ring) {
+		for _, vr := range variants(c.Ring) {
+			name, v := vr.name, vr.ring
 			if got := locate(c.P, v); got != want {
 				return fmt.Errorf("harness inconsistency: exact location of variant %q is %v, of the ring %v", name, got, want)
 			}
@@ -362,6 +381,9 @@ func sgn(x int64) int {
 
 func classify(c Case) ([]string, bool) {
 	cl := []string{"mode:" + c.Mode}
+	if len(c.Ring) > 60 {
+		cl = append(cl, "long(>60 vertices)")
+	}
 	switch c.Mode {
 	case "ring":
 		loc := locate(c.P, c.Ring)
